@@ -1,6 +1,6 @@
 (** C11, second clause: if the plain diff of two values is empty, so is the diff
     under the options - under the guards that the refuted witnesses show to be
-    necessary: good kept keys (no clean-key collision, K8), Python-equal
+    necessary: good kept keys (no clean-key collision), Python-equal
     keys of equal type when key cleaning is active (1 / 1.0 / True), set members
     whose plain hash texts do not collide (K1). *)
 From Coq Require Import List ZArith NArith Bool Arith Lia.
@@ -298,8 +298,8 @@ Proof.
     apply andb_true_iff in Hg2'. destruct Hg2' as [Hk2 _].
     destruct (kmap_spec F _ Hk1) as [km1 [E1 [Ec1 [Eo1 Er1]]]].
     destruct (kmap_spec F _ Hk2) as [km2 [E2 [Ec2 [Eo2 Er2]]]].
-    destruct (keys_good_parts F _ Hk1) as [Hn1 [Hok1 Hnc1]].
-    destruct (keys_good_parts F _ Hk2) as [Hn2 [Hok2 Hnc2]].
+    destruct (keys_good_parts F _ Hk1) as [Hn1 Hnc1].
+    destruct (keys_good_parts F _ Hk2) as [Hn2 Hnc2].
     rewrite E1, E2. cbn [bind]. rewrite Ec1, Ec2.
     set (ks1 := keys_of c kvs) in *. set (ks2 := keys_of c kvs2) in *.
     assert (forall k, In k ks1 -> KU k) as KU1.
